@@ -33,6 +33,9 @@ structure RibSt where
   diverged : Bool := false
   /-- (client traces) the numbers of send and receive errors the client reported at the last observation -/
   lastErrs : Nat × Nat := (0, 0)
+  /-- (client traces) a request that reuses the id of a pending operation was handed over since the
+  last observation: the send error count has to have grown by the next one -/
+  dupHandedOver : Option Nat := none
   /-- every operation submitted so far, by id (latest wins) -/
   ops : Map Nat Op := []
   /-- the latest ADD / REPLACE submitted under each id (what a held id stands for: a DELETE is
